@@ -165,6 +165,9 @@ def run_invariant(case: dict, st) -> Tuple[List[dict], str]:
     elif case["constraint"] == "R2>=R1+delta":
         cvars = {"delta": dict(value=60.0, min=10.0, max=500.0)}
         cexpr = {ids[els[3]].R: f"{ids[els[1]].R}+delta"}
+    elif case["constraint"] == "Y=C/100":
+        # an expression in the LAST varied parameter (scalar minimisers evaluate the objective once more, with perturbed values, after the best fit)
+        cexpr = {ids[els[2]].Y: f"{ids[els[4]].C}/100"}
     cfg = f"{case['method']}/{case['weight']}"
     viols = []
 
@@ -210,6 +213,10 @@ def run_invariant(case: dict, st) -> Tuple[List[dict], str]:
         a, b = rel[3].get_value("R"), rel[1].get_value("R")
         if abs(a - 2 * b) > 1e-9 * abs(a):
             viol(f"constraint-violated|R2=2*R1|box={case['box']}", f"constraint R_2 = 2*R_1 does not hold for the returned values ({a!r} vs 2 x {b!r})")
+    elif case["constraint"] == "Y=C/100":
+        a, b = rel[2].get_value("Y"), rel[4].get_value("C")
+        if abs(a - b / 100) > 1e-9 * abs(a):
+            viol(f"constraint-violated|Y=C/100|box={case['box']}", f"constraint Y = C/100 does not hold for the returned values ({a!r} vs {b!r}/100)")
     elif case["constraint"] == "R2>=R1+delta":
         a, b = rel[3].get_value("R"), rel[1].get_value("R")
         if not (a - b >= 10.0 * (1 - 1e-9) and a - b <= 500.0 * (1 + 1e-9)):
@@ -306,11 +313,13 @@ def cases(thorough: bool) -> List[dict]:
             out.append({"part": "recovery", "family": fam, "scale": scale, "pert": pert, "set": 2})
     fixeds = [[], [(0, "R")], [(2, "n")], [(4, "C")], [(0, "R"), (4, "C")], [(1, "R"), (2, "Y")]]
     boxes = ["default", "tight-in", "tight-out", "beyond-defaults", "value-on-limit"]
-    constraints = ["none", "R2=2*R1", "R2>=R1+delta"]
+    constraints = ["none", "R2=2*R1", "R2>=R1+delta", "Y=C/100"]
     methods = METHODS if thorough else ["leastsq", "least_squares", "powell", "lbfgsb", "slsqp"]
     weights = WEIGHTS if thorough else ["boukamp", "unity"]
     for m, w, box, fx, con in itertools.product(methods, weights, boxes, fixeds if thorough else fixeds[:5], constraints):
-        if con != "none" and any(i in (1, 3) and k == "R" for i, k in fx):
+        if con in ("R2=2*R1", "R2>=R1+delta") and any(i in (1, 3) and k == "R" for i, k in fx):
+            continue
+        if con == "Y=C/100" and (any((i, k) in ((2, "Y"), (4, "C")) for i, k in fx) or box not in ("default", "beyond-defaults")):
             continue
         out.append({"part": "invariant", "method": m, "weight": w, "box": box, "fixed": fx, "constraint": con})
     out.append({"part": "selection", "methods": ["leastsq", "powell", "lbfgsb"], "weights": ["boukamp", "modulus"]})
@@ -326,7 +335,7 @@ def run(ctx) -> None:
     ctx.rule = ("recovery with method = weight = 'auto': families R(RC), R(RQ), R(RC)(RC), R(RC)(RQ), R(C[RW]), RL(RQ) x impedance scale {1e-2, 1, 1e2} x "
                 "start perturbation {1.3, 2, 3} alternating up/down per parameter (18 of 54 in quick, all 54 plus a second set of time constants in "
                 "thorough); invariants on one R(RQ)(RC) circuit: 5 (9) methods x 2 (4) weights x limit boxes {default, tight containing the truth, "
-                "tight excluding the truth, limits beyond the class defaults, start/fixed values lying exactly on a limit} x 5 (6) subsets of fixed parameters x constraint sets {none, R_2 = "
+                "tight excluding the truth, limits beyond the class defaults, start/fixed values lying exactly on a limit} x 5 (6) subsets of fixed parameters x constraint sets {none, Y = C/100 (an expression in the last varied parameter), R_2 = "
                 "2 R_1, inequality through an auxiliary variable}; selection: multi-method/multi-weight calls versus the same pairs run one by one. "
                 "Oracles: parameters within 1e-2 up to a swap of identical parallel blocks and pseudo chi-squared <= 1e-6; bounds, fixed values "
                 "bit-identical, constraints to 1e-9, table and data frame = returned circuit, inputs untouched, winner = smallest pseudo chi-squared.")
